@@ -234,6 +234,9 @@ func c03Run(c *fx.Ctx) {
 				subset = append(subset, bin)
 			}
 			c.Distinct("nontrivial", string(bin))
+			if c.Index()%301 == 0 {
+				c.Sample(fmt.Sprintf("%s: CBE % x <-> CTE", cls, clipB(bin)))
+			}
 		}
 		if text, _, err := codec.Encode(codec.CTE, doc, nil, true); err == nil {
 			convertCTE(c, text, cls)
